@@ -1,10 +1,10 @@
 /-!
-# The Pratt core: binary levels, a prefix operator, a postfix operator, parentheses
+# The Pratt core: binary levels, a prefix operator, postfix operators (`++`, indexing, member access, calls), parentheses
 
 An abstract copy of the loop structure of `Parser::parsePrattExpression` / `parsePrefixExpression`
 / `parsePrimary` over an abstract token alphabet: binary operator `k` has left binding power
 `lbp k` and right binding power `lbp k + 1` (left-associative), the prefix operator parses its
-operand at `PRE`, the postfix operator binds at `POST`.  `roundtrip` says that parsing the
+operand at `PRE`, the postfix forms (`e!`, `e[i]`, `e.n`, `e()`, `e(a)`) bind at `POST`.  `roundtrip` says that parsing the
 minimal-parenthesis rendering of *any* tree returns the tree (modulo `paren` nodes), for any table
 with `lbp k < PRE < POST`.  `Props/C14.lean` instantiates it with the table regenerated from
 `parser.cpp`, whose entries are checked (by `decide`) to satisfy exactly these hypotheses and the
@@ -12,10 +12,11 @@ level order of `docs/grammar.md`.  Core-only.
 -/
 namespace BlochVerif.Parse.PrattCore
 
-inductive Tok | num (n : Nat) | op (k : Nat) | neg | bang | lp | rp
+inductive Tok | num (n : Nat) | op (k : Nat) | neg | bang | lp | rp | lb | rb | dot (n : Nat)
   deriving DecidableEq, Repr
 
 inductive E | num (n : Nat) | bin (k : Nat) (l r : E) | neg (e : E) | post (e : E) | paren (e : E)
+  | index (e i : E) | member (e : E) (n : Nat) | call0 (e : E) | call1 (e a : E)
   deriving DecidableEq, Repr
 
 def PRE : Nat := 14
@@ -55,6 +56,20 @@ def loop : Nat → Nat → E → List Tok → Option (E × List Tok)
       | none => none
   | f+1, m, l, .bang :: r =>
     if POST < m then some (l, .bang :: r) else loop f m (.post l) r
+  | f+1, m, l, .dot n :: r =>
+    if POST < m then some (l, .dot n :: r) else loop f m (.member l n) r
+  | f+1, m, l, .lb :: r =>
+    if POST < m then some (l, .lb :: r)
+    else match pratt f 0 r with
+      | some (i, .rb :: r') => loop f m (.index l i) r'
+      | _ => none
+  | f+1, m, l, .lp :: .rp :: r =>
+    if POST < m then some (l, .lp :: .rp :: r) else loop f m (.call0 l) r
+  | f+1, m, l, .lp :: r =>
+    if POST < m then some (l, .lp :: r)
+    else match pratt f 0 r with
+      | some (a, .rp :: r') => loop f m (.call1 l a) r'
+      | _ => none
   | _+1, _, l, ts => some (l, ts)
 end
 end
@@ -63,6 +78,35 @@ section proofs
 variable (lbp : Nat → Nat)
 
 /-! ### fuel monotonicity -/
+
+/-- unfolding of `loop` at `( t …` when `t` is not `)` -/
+theorem loop_lp_ne (f m : Nat) (l : E) (t : Tok) (rest : List Tok) (ht : t ≠ .rp) :
+    loop lbp (f+1) m l (.lp :: t :: rest) =
+      if POST < m then some (l, .lp :: t :: rest)
+      else match pratt lbp f 0 (t :: rest) with
+        | some (a, .rp :: r') => loop lbp f m (.call1 l a) r'
+        | _ => none := by
+  cases t <;> first | (exact absurd rfl ht) | (simp only [loop])
+
+theorem mono_lp_case (f : Nat)
+    (ih3 : ∀ m ts r, pratt lbp f m ts = some r → pratt lbp (f+1) m ts = some r)
+    (ih4 : ∀ m l ts r, loop lbp f m l ts = some r → loop lbp (f+1) m l ts = some r)
+    (m : Nat) (l : E) (t : Tok) (rest : List Tok) (r : E × List Tok) (ht : t ≠ .rp)
+    (h : loop lbp (f+1) m l (.lp :: t :: rest) = some r) :
+    loop lbp (f+1+1) m l (.lp :: t :: rest) = some r := by
+  rw [loop_lp_ne lbp f m l t rest ht] at h
+  rw [loop_lp_ne lbp (f+1) m l t rest ht]
+  by_cases hk : POST < m
+  · simpa [hk] using h
+  · simp only [hk, if_false] at h ⊢
+    cases hp : pratt lbp f 0 (t :: rest) with
+    | none => simp [hp] at h
+    | some x =>
+      rw [ih3 _ _ x hp]; rw [hp] at h
+      obtain ⟨a, r'⟩ := x
+      match r', h with
+      | .rp :: r'', h => exact ih4 _ _ _ _ h
+
 theorem mono_all (f : Nat) :
     (∀ ts r, primary lbp f ts = some r → primary lbp (f+1) ts = some r) ∧
     (∀ ts r, pfx lbp f ts = some r → pfx lbp (f+1) ts = some r) ∧
@@ -87,6 +131,9 @@ theorem mono_all (f : Nat) :
       | .neg :: rest => simp [primary] at h
       | .bang :: rest => simp [primary] at h
       | .rp :: rest => simp [primary] at h
+      | .lb :: rest => simp [primary] at h
+      | .rb :: rest => simp [primary] at h
+      | .dot _ :: rest => simp [primary] at h
     · intro ts r h
       match ts with
       | .neg :: rest =>
@@ -100,6 +147,9 @@ theorem mono_all (f : Nat) :
       | .op k :: rest => simp only [pfx] at h ⊢; exact ih1 _ _ h
       | .bang :: rest => simp only [pfx] at h ⊢; exact ih1 _ _ h
       | .rp :: rest => simp only [pfx] at h ⊢; exact ih1 _ _ h
+      | .lb :: rest => simp only [pfx] at h ⊢; exact ih1 _ _ h
+      | .rb :: rest => simp only [pfx] at h ⊢; exact ih1 _ _ h
+      | .dot _ :: rest => simp only [pfx] at h ⊢; exact ih1 _ _ h
     · intro m ts r h
       simp only [pratt] at h ⊢
       cases hp : pfx lbp f ts with
@@ -122,11 +172,53 @@ theorem mono_all (f : Nat) :
         by_cases hk : POST < m
         · simpa [hk] using h
         · simp only [hk, if_false] at h ⊢; exact ih4 _ _ _ _ h
+      | .dot n :: rest =>
+        simp only [loop] at h ⊢
+        by_cases hk : POST < m
+        · simpa [hk] using h
+        · simp only [hk, if_false] at h ⊢; exact ih4 _ _ _ _ h
+      | .lb :: rest =>
+        simp only [loop] at h ⊢
+        by_cases hk : POST < m
+        · simpa [hk] using h
+        · simp only [hk, if_false] at h ⊢
+          cases hp : pratt lbp f 0 rest with
+          | none => simp [hp] at h
+          | some x =>
+            rw [ih3 _ _ x hp]; rw [hp] at h
+            obtain ⟨i, r'⟩ := x
+            match r', h with
+            | .rb :: r'', h => exact ih4 _ _ _ _ h
+      | .lp :: .rp :: rest =>
+        simp only [loop] at h ⊢
+        by_cases hk : POST < m
+        · simpa [hk] using h
+        · simp only [hk, if_false] at h ⊢; exact ih4 _ _ _ _ h
+      | [.lp] =>
+        simp only [loop] at h ⊢
+        by_cases hk : POST < m
+        · simpa [hk] using h
+        · simp only [hk, if_false] at h ⊢
+          cases hp : pratt lbp f 0 [] with
+          | none => simp [hp] at h
+          | some x =>
+            rw [ih3 _ _ x hp]; rw [hp] at h
+            obtain ⟨a, r'⟩ := x
+            match r', h with
+            | .rp :: r'', h => exact ih4 _ _ _ _ h
+      | .lp :: .num n :: rest => exact mono_lp_case lbp f ih3 ih4 m l (.num n) rest r (by intro hc; cases hc) h
+      | .lp :: .op k :: rest => exact mono_lp_case lbp f ih3 ih4 m l (.op k) rest r (by intro hc; cases hc) h
+      | .lp :: .neg :: rest => exact mono_lp_case lbp f ih3 ih4 m l .neg rest r (by intro hc; cases hc) h
+      | .lp :: .bang :: rest => exact mono_lp_case lbp f ih3 ih4 m l .bang rest r (by intro hc; cases hc) h
+      | .lp :: .lp :: rest => exact mono_lp_case lbp f ih3 ih4 m l .lp rest r (by intro hc; cases hc) h
+      | .lp :: .lb :: rest => exact mono_lp_case lbp f ih3 ih4 m l .lb rest r (by intro hc; cases hc) h
+      | .lp :: .rb :: rest => exact mono_lp_case lbp f ih3 ih4 m l .rb rest r (by intro hc; cases hc) h
+      | .lp :: .dot n :: rest => exact mono_lp_case lbp f ih3 ih4 m l (.dot n) rest r (by intro hc; cases hc) h
       | [] => simpa [loop] using h
       | .num n :: rest => simpa [loop] using h
-      | .lp :: rest => simpa [loop] using h
       | .neg :: rest => simpa [loop] using h
       | .rp :: rest => simpa [loop] using h
+      | .rb :: rest => simpa [loop] using h
 
 theorem mono_pratt {f f' m ts r} (h : f ≤ f') (hp : pratt lbp f m ts = some r) :
     pratt lbp f' m ts = some r := by
@@ -143,16 +235,22 @@ theorem mono_loop {f f' m l ts r} (h : f ≤ f') (hp : loop lbp f m l ts = some 
 def stops (m : Nat) : List Tok → Prop
   | .op k :: _ => lbp k < m
   | .bang :: _ => POST < m
+  | .dot _ :: _ => POST < m
+  | .lb :: _ => POST < m
+  | .lp :: _ => POST < m
   | _ => True
 
 theorem stops_mono {a b ts} (h : a ≤ b) (hs : stops lbp a ts) : stops lbp b ts := by
   match ts with
   | .op k :: _ => simp only [stops] at hs ⊢; omega
   | .bang :: _ => simp only [stops] at hs ⊢; omega
+  | .dot _ :: _ => simp only [stops] at hs ⊢; omega
+  | .lb :: _ => simp only [stops] at hs ⊢; omega
+  | .lp :: _ => simp only [stops] at hs ⊢; omega
   | [] => trivial
   | .num _ :: _ => trivial
-  | .lp :: _ => trivial
   | .rp :: _ => trivial
+  | .rb :: _ => trivial
   | .neg :: _ => trivial
 
 theorem loop_stop {m ts} (f : Nat) (l : E) (hs : stops lbp m ts) :
@@ -160,16 +258,32 @@ theorem loop_stop {m ts} (f : Nat) (l : E) (hs : stops lbp m ts) :
   match ts with
   | .op k :: _ => simp only [stops] at hs; simp [loop, hs]
   | .bang :: _ => simp only [stops] at hs; simp [loop, hs]
+  | .dot _ :: _ => simp only [stops] at hs; simp [loop, hs]
+  | .lb :: _ => simp only [stops] at hs; simp [loop, hs]
+  | .lp :: .rp :: _ => simp only [stops] at hs; simp [loop, hs]
+  | [.lp] => simp only [stops] at hs; simp [loop, hs]
+  | .lp :: .num _ :: _ => simp only [stops] at hs; simp [loop, hs]
+  | .lp :: .op _ :: _ => simp only [stops] at hs; simp [loop, hs]
+  | .lp :: .neg :: _ => simp only [stops] at hs; simp [loop, hs]
+  | .lp :: .bang :: _ => simp only [stops] at hs; simp [loop, hs]
+  | .lp :: .lp :: _ => simp only [stops] at hs; simp [loop, hs]
+  | .lp :: .lb :: _ => simp only [stops] at hs; simp [loop, hs]
+  | .lp :: .rb :: _ => simp only [stops] at hs; simp [loop, hs]
+  | .lp :: .dot _ :: _ => simp only [stops] at hs; simp [loop, hs]
   | [] => simp [loop]
   | .num _ :: _ => simp [loop]
-  | .lp :: _ => simp [loop]
   | .rp :: _ => simp [loop]
+  | .rb :: _ => simp [loop]
   | .neg :: _ => simp [loop]
 
 def level : E → Nat
   | .num _ => 100
   | .paren _ => 100
   | .post _ => POST
+  | .index _ _ => POST
+  | .member _ _ => POST
+  | .call0 _ => POST
+  | .call1 _ _ => POST
   | .neg _ => PRE
   | .bin k _ _ => lbp k
 
@@ -181,6 +295,10 @@ def body : E → List Tok
   | .paren e => .lp :: body e ++ [.rp]
   | .neg e => .neg :: wrap (level lbp e) PRE (body e)
   | .post e => wrap (level lbp e) POST (body e) ++ [.bang]
+  | .member e n => wrap (level lbp e) POST (body e) ++ [.dot n]
+  | .call0 e => wrap (level lbp e) POST (body e) ++ [.lp, .rp]
+  | .index e i => wrap (level lbp e) POST (body e) ++ .lb :: body i ++ [.rb]
+  | .call1 e a => wrap (level lbp e) POST (body e) ++ .lp :: body a ++ [.rp]
   | .bin k l r => wrap (level lbp l) (lbp k) (body l) ++ .op k :: wrap (level lbp r) (lbp k + 1) (body r)
 
 def nbody : E → E
@@ -188,6 +306,10 @@ def nbody : E → E
   | .paren e => .paren (nbody e)
   | .neg e => .neg (nwrap (level lbp e) PRE (nbody e))
   | .post e => .post (nwrap (level lbp e) POST (nbody e))
+  | .member e n => .member (nwrap (level lbp e) POST (nbody e)) n
+  | .call0 e => .call0 (nwrap (level lbp e) POST (nbody e))
+  | .index e i => .index (nwrap (level lbp e) POST (nbody e)) (nbody i)
+  | .call1 e a => .call1 (nwrap (level lbp e) POST (nbody e)) (nbody a)
   | .bin k l r => .bin k (nwrap (level lbp l) (lbp k) (nbody l)) (nwrap (level lbp r) (lbp k + 1) (nbody r))
 
 def rend (m : Nat) (e : E) : List Tok := wrap (level lbp e) m (body lbp e)
@@ -198,6 +320,10 @@ def strip : E → E
   | .paren e => strip e
   | .neg e => .neg (strip e)
   | .post e => .post (strip e)
+  | .member e n => .member (strip e) n
+  | .call0 e => .call0 (strip e)
+  | .index e i => .index (strip e) (strip i)
+  | .call1 e a => .call1 (strip e) (strip a)
   | .bin k l r => .bin k (strip l) (strip r)
 
 theorem strip_nwrap (lv m e) : strip (nwrap lv m e) = strip e := by
@@ -209,6 +335,10 @@ theorem strip_nbody (e : E) : strip (nbody lbp e) = strip e := by
   | paren e ih => simp [nbody, strip, ih]
   | neg e ih => simp [nbody, strip, strip_nwrap, ih]
   | post e ih => simp [nbody, strip, strip_nwrap, ih]
+  | member e n ih => simp [nbody, strip, strip_nwrap, ih]
+  | call0 e ih => simp [nbody, strip, strip_nwrap, ih]
+  | index e i ihe ihi => simp [nbody, strip, strip_nwrap, ihe, ihi]
+  | call1 e a ihe iha => simp [nbody, strip, strip_nwrap, ihe, iha]
   | bin k l r ihl ihr => simp [nbody, strip, strip_nwrap, ihl, ihr]
 
 theorem strip_norm (m e) : strip (norm lbp m e) = strip e := by
@@ -243,6 +373,52 @@ theorem loop_bang {f m l r res} (hk : ¬ POST < m)
     (h2 : loop lbp f m (.post l) r = some res) :
     loop lbp (f+1) m l (.bang :: r) = some res := by
   simp [loop, hk, h2]
+
+theorem loop_dot {f m l n r res} (hk : ¬ POST < m)
+    (h2 : loop lbp f m (.member l n) r = some res) :
+    loop lbp (f+1) m l (.dot n :: r) = some res := by
+  simp [loop, hk, h2]
+
+theorem loop_call0 {f m l r res} (hk : ¬ POST < m)
+    (h2 : loop lbp f m (.call0 l) r = some res) :
+    loop lbp (f+1) m l (.lp :: .rp :: r) = some res := by
+  simp [loop, hk, h2]
+
+theorem loop_lb {f m l r i r' res} (hk : ¬ POST < m)
+    (h1 : pratt lbp f 0 r = some (i, .rb :: r'))
+    (h2 : loop lbp f m (.index l i) r' = some res) :
+    loop lbp (f+1) m l (.lb :: r) = some res := by
+  simp [loop, hk, h1, h2]
+
+theorem loop_call1 {f m l t r a r' res} (ht : t ≠ .rp) (hk : ¬ POST < m)
+    (h1 : pratt lbp f 0 (t :: r) = some (a, .rp :: r'))
+    (h2 : loop lbp f m (.call1 l a) r' = some res) :
+    loop lbp (f+1) m l (.lp :: t :: r) = some res := by
+  rw [loop_lp_ne lbp f m l t r ht]
+  simp [hk, h1, h2]
+
+/-- a rendering never starts with a closing parenthesis -/
+theorem body_head (e : E) : ∃ t ts, body lbp e = t :: ts ∧ t ≠ .rp := by
+  have wrapHead : ∀ (lv m : Nat) (b : List Tok), (∃ t ts, b = t :: ts ∧ t ≠ Tok.rp) →
+      ∃ t ts, wrap lv m b = t :: ts ∧ t ≠ Tok.rp := by
+    intro lv m b hb
+    unfold wrap
+    split
+    · exact ⟨.lp, _, rfl, by intro h; cases h⟩
+    · exact hb
+  have appHead : ∀ (a b : List Tok), (∃ t ts, a = t :: ts ∧ t ≠ Tok.rp) → ∃ t ts, a ++ b = t :: ts ∧ t ≠ Tok.rp := by
+    intro a b ⟨t, ts, h1, h2⟩
+    exact ⟨t, ts ++ b, by simp [h1], h2⟩
+  induction e with
+  | num n => exact ⟨.num n, [], rfl, by intro h; cases h⟩
+  | paren e _ => exact ⟨.lp, _, rfl, by intro h; cases h⟩
+  | neg e _ => exact ⟨.neg, _, rfl, by intro h; cases h⟩
+  | post e ih => simp only [body]; exact appHead _ _ (wrapHead _ _ _ ih)
+  | member e n ih => simp only [body]; exact appHead _ _ (wrapHead _ _ _ ih)
+  | call0 e ih => simp only [body]; exact appHead _ _ (wrapHead _ _ _ ih)
+  | index e i ihe _ => simp only [body]; exact appHead _ _ (appHead _ _ (wrapHead _ _ _ ihe))
+  | call1 e a ihe _ => simp only [body]; exact appHead _ _ (appHead _ _ (wrapHead _ _ _ ihe))
+  | bin k l r ihl _ => simp only [body]; exact appHead _ _ (wrapHead _ _ _ ihl)
 
 /-- the "continue the loop" statement for the un-parenthesised rendering -/
 def K' (e : E) : Prop :=
@@ -281,10 +457,13 @@ theorem stops_PRE (hl : ∀ k, lbp k < PRE) {mm rest} (hmm : mm ≤ PRE)
   match rest with
   | .op k :: _ => simp only [stops]; exact hl k
   | .bang :: _ => simp only [stops, POST, PRE] at hs hmm ⊢; omega
+  | .dot _ :: _ => simp only [stops, POST, PRE] at hs hmm ⊢; omega
+  | .lb :: _ => simp only [stops, POST, PRE] at hs hmm ⊢; omega
+  | .lp :: _ => simp only [stops, POST, PRE] at hs hmm ⊢; omega
   | [] => trivial
   | .num _ :: _ => trivial
-  | .lp :: _ => trivial
   | .rp :: _ => trivial
+  | .rb :: _ => trivial
   | .neg :: _ => trivial
 
 theorem K'_all (hl : ∀ k, lbp k < PRE) : ∀ e, K' lbp e := by
@@ -334,6 +513,54 @@ theorem K'_all (hl : ∀ k, lbp k < PRE) : ∀ e, K' lbp e := by
     rw [lst]
     exact hK POST m (.bang :: rest) res (by omega) (by simp [stops])
       ⟨f2 + 1, loop_bang lbp (by omega) h2⟩
+  | member e0 n ih =>
+    intro mm m rest res hm hlv hs ⟨f2, h2⟩
+    have hK := K_of_K' lbp e0 ih
+    simp only [level] at hlv
+    simp only [nbody] at h2
+    have lst : body lbp (.member e0 n) ++ rest = rend lbp POST e0 ++ Tok.dot n :: rest := by
+      simp [body, rend]
+    rw [lst]
+    exact hK POST m (.dot n :: rest) res (by omega) (by simp [stops])
+      ⟨f2 + 1, loop_dot lbp (by omega) h2⟩
+  | call0 e0 ih =>
+    intro mm m rest res hm hlv hs ⟨f2, h2⟩
+    have hK := K_of_K' lbp e0 ih
+    simp only [level] at hlv
+    simp only [nbody] at h2
+    have lst : body lbp (.call0 e0) ++ rest = rend lbp POST e0 ++ Tok.lp :: Tok.rp :: rest := by
+      simp [body, rend]
+    rw [lst]
+    exact hK POST m (.lp :: .rp :: rest) res (by omega) (by simp [stops])
+      ⟨f2 + 1, loop_call0 lbp (by omega) h2⟩
+  | index e0 i ihe ihi =>
+    intro mm m rest res hm hlv hs ⟨f2, h2⟩
+    have hK := K_of_K' lbp e0 ihe
+    simp only [level] at hlv
+    simp only [nbody] at h2
+    obtain ⟨f1, h1⟩ := ihi 0 0 (.rb :: rest) (nbody lbp i, .rb :: rest) (Nat.le_refl _) (Nat.zero_le _)
+      (by simp [stops]) ⟨1, loop_stop lbp 0 _ (by simp [stops])⟩
+    have lst : body lbp (.index e0 i) ++ rest = rend lbp POST e0 ++ Tok.lb :: (body lbp i ++ Tok.rb :: rest) := by
+      simp [body, rend]
+    rw [lst]
+    refine hK POST m _ res (by omega) (by simp [stops]) ⟨max f1 f2 + 1, ?_⟩
+    exact loop_lb lbp (by omega) (mono_pratt lbp (Nat.le_max_left f1 f2) h1)
+      (mono_loop lbp (Nat.le_max_right f1 f2) h2)
+  | call1 e0 a ihe iha =>
+    intro mm m rest res hm hlv hs ⟨f2, h2⟩
+    have hK := K_of_K' lbp e0 ihe
+    simp only [level] at hlv
+    simp only [nbody] at h2
+    obtain ⟨f1, h1⟩ := iha 0 0 (.rp :: rest) (nbody lbp a, .rp :: rest) (Nat.le_refl _) (Nat.zero_le _)
+      (by simp [stops]) ⟨1, loop_stop lbp 0 _ (by simp [stops])⟩
+    obtain ⟨t, ts, hb, hne⟩ := body_head lbp a
+    have lst : body lbp (.call1 e0 a) ++ rest = rend lbp POST e0 ++ Tok.lp :: t :: (ts ++ Tok.rp :: rest) := by
+      simp [body, rend, hb]
+    rw [lst]
+    rw [hb] at h1
+    refine hK POST m _ res (by omega) (by simp [stops]) ⟨max f1 f2 + 1, ?_⟩
+    exact loop_call1 lbp hne (by omega) (by simpa using mono_pratt lbp (Nat.le_max_left f1 f2) h1)
+      (mono_loop lbp (Nat.le_max_right f1 f2) h2)
   | bin k l r ihl ihr =>
     intro mm m rest res hm hlv hs ⟨f2, h2⟩
     have hKl := K_of_K' lbp l ihl
